@@ -116,10 +116,12 @@ def ensure(verbose=True):
                 os.link(cached[n], os.path.join(ov, rel + SOSUF))
             open(os.path.join(ov, ".complete"), "w").write(tag)
         os.utime(ov)
-        # prune old overlays (keep 3 newest)
-        ovs = sorted(glob.glob(os.path.join(CACHE, "overlay-*")), key=os.path.getmtime, reverse=True)
-        for p in ovs[3:]:
-            shutil.rmtree(p, ignore_errors=True)
+        # prune overlays not used for 3 hours (several checks may run concurrently on different source
+        # trees via WHATSHAP_REPO: never remove an overlay another process may still be running from)
+        now = time.time()
+        for p in glob.glob(os.path.join(CACHE, "overlay-*")):
+            if p != ov and now - os.path.getmtime(p) > 3 * 3600:
+                shutil.rmtree(p, ignore_errors=True)
         return ov
     finally:
         fcntl.flock(lock, fcntl.LOCK_UN)
